@@ -714,8 +714,10 @@ void vp_sample_add(const char *fmt, ...)
 	vsnprintf(buf, sizeof(buf), fmt, ap);
 	va_end(ap);
 	pthread_mutex_lock(&g_res_lock);
-	if (g_nsamples < VP_MAX_SAMPLES)
-		g_samples[g_nsamples++] = strdup(buf);
+	if (g_nsamples < VP_MAX_SAMPLES) {
+		g_samples[g_nsamples] = strdup(buf);
+		__atomic_store_n(&g_nsamples, g_nsamples + 1, __ATOMIC_RELAXED);
+	}
 	pthread_mutex_unlock(&g_res_lock);
 }
 void vp_note(const char *fmt, ...)
